@@ -8,7 +8,7 @@ def config(quick):
     modes = {"JSONMode": [(i, 0) for i in range(1, 6)], "ColorMode": [(i, 0) for i in range(1, 6)]}
     opt = lambda k, a: dict(k=k, a=a, b=0)
     return dict(
-        max_loggers=3 if quick else 4, init_level=5, names=["a"], bool_lists=BOOL_LISTS, layouts=[""],
+        max_loggers=3, init_level=5, names=["a"], bool_lists=BOOL_LISTS, layouts=[""],
         opt_lists=[[], [opt("JSONMode", 1)], [opt("JSONMode", 3)], [opt("ColorMode", 1)], [opt("ColorMode", 3)],
                    [opt("JSONMode", 2), opt("ColorMode", 4)], [opt("ColorMode", 2), opt("JSONMode", 5)],
                    [opt("JSONMode", 4)], [opt("ColorMode", 5)]],
